@@ -167,8 +167,18 @@ JudgeE2E(r) ==
        ELSE IF usable = {} THEN Verdict(r.id, "ACCEPT", "vacuous", 0, FALSE, TRUE, "")
        ELSE Verdict(r.id, "ACCEPT", "", 0, nontriv, TRUE, "")
 
+(* ---- wild stream records (C11): after an operation in one of the repository's tests, every live stream *)
+(*      still shows its creation-time query and type                                                       *)
+JudgeImm(r) ==
+    IF Len(r.views0) # Len(r.views1) THEN Verdict(r.id, "REJECT", "Harness", 0, TRUE, FALSE, "")
+    ELSE IF \E i \in 1..Len(r.views0) : r.views0[i] # r.views1[i] \/ r.types0[i] # r.types1[i] THEN
+         Verdict(r.id, "REJECT", "Imm", CHOOSE i \in 1..Len(r.views0) : r.views0[i] # r.views1[i] \/ r.types0[i] # r.types1[i],
+                 TRUE, TRUE, r.op)
+    ELSE Verdict(r.id, "ACCEPT", "", 0, Len(r.views0) >= 2, FALSE, r.op)
+
 Judge(r) ==
     CASE r.pass = "simplify" -> JudgeSimplify(r)
+      [] r.pass = "imm" -> JudgeImm(r)
       [] r.pass = "e2e" -> JudgeE2E(r)
       [] r.pass = "sugar" -> JudgeSugar(r)
       [] r.pass = "helper" -> JudgeSimplify(r)     \* same relational clauses: Scoped, Preserve, WellFormed
